@@ -40,6 +40,14 @@ Theorem C11_records_everywhere : forall n hist final,
 Proof. exact C03P.outside_known. Qed.
 Print Assumptions C11_records_everywhere.
 
+(* batching: a day's deletion records may arrive cut into any number of batches; applying them batch by
+   batch gives what applying the whole answer gives, provided the split loses no record (the proviso is
+   checked on the code by the harness case 'batching': 55 records of one day in answers of ~4 KiB) *)
+Theorem C11_batches_lossless : forall chunks r,
+  apply_tomb_batches chunks r = fold_left apply_tomb (concat chunks) r.
+Proof. exact batches_lossless_tombs. Qed.
+Print Assumptions C11_batches_lossless.
+
 (* regression examples (the former refutation witnesses): the 3-peer history delete, B<-A, B<-C, A<-B
    now leaves the row deleted on B and A ... *)
 Example C11_witness_holds : spec_C11 C11P.witness (run_C11 C11P.witness) = true /\ c11_envelope C11P.witness = true /\
